@@ -425,7 +425,7 @@ func check(c *enum.Ctx, k kase) {
 }
 
 func run(c *enum.Ctx) {
-	c.Rule("Truncate: every (start,end) in [off-2,off+L+2]^2 for L=0..5 (thorough 6), offsets {-2,0,3}, linear/circular, dst==src, a fresh dst, a dst that already holds an earlier (longer circular / one-letter) result, a dst that is a struct copy of the source and one that was handed the source's letters from the second on, linear.Seq and linear.QSeq; Join: all length pairs 0..3 x both ends x conformations; Stitch/Compose: every list of <=2 (thorough 3) features whose interval intersects or abuts the sequence within [off-1,off+L+1], orientation forward/reverse/none/not-an-Orienter, complementing (DNAredundant) and non-complementing (Protein) alphabets, both sequence types, dst==src / fresh / previously used, L=0..4; Trim: every vector of length 0..6 (thorough 7) over (limit-e) in {-2,-1,0,1,2}/4 at offsets {0,3}; feature lists of 2^k-1, 2^k, 2^k+1 (also 3*2^k, 10^j-1, 10^j, 10^j+1, 5*10^j) features (3..257, thorough 1025) in three fixed patterns around a 15-letter sequence; every Truncate/Join case again directly after a rejected call of the same function, every Stitch/Compose case after a rejected Stitch and a rejected Compose (an inverted feature behind two good ones) on other sequences; all positions carry distinct letters (and qualities); non-trivial = cases where the operation is expected to succeed on a non-empty result")
+	c.Rule("Truncate: every (start,end) in [off-2,off+L+2]^2 for L=0..5 (thorough 6), offsets {-2,0,3}, linear/circular, dst==src, a fresh dst, a dst that already holds an earlier (longer circular / one-letter) result, a dst that is a struct copy of the source and one that was handed the source's letters from the second on, linear.Seq and linear.QSeq; Join: all length pairs 0..3 x both ends x conformations; Stitch/Compose: every list of <=2 (thorough 3) features whose interval intersects or abuts the sequence within [off-1,off+L+1], orientation forward/reverse/none/not-an-Orienter, complementing (DNAredundant) and non-complementing (Protein) alphabets, both sequence types, dst==src / fresh / previously used, L=0..4; Trim: every vector of length 0..6 (thorough 7) over (limit-e) in {-2,-1,0,1,2}/4 at offsets {0,3}; feature lists of 2^k-1, 2^k, 2^k+1 (also 3*2^k, 10^j-1, 10^j, 10^j+1, 5*10^j) features (3..257, thorough 1025) in three fixed patterns around a 15-letter sequence; sequences of ladder length (16..2050) with long overlapping features of both orientations; sequences sitting at +-2^40 and around +-2^31; every Truncate/Join case again directly after a rejected call of the same function, every Stitch/Compose case after a rejected Stitch and a rejected Compose (an inverted feature behind two good ones) on other sequences; all positions carry distinct letters (and qualities); non-trivial = cases where the operation is expected to succeed on a non-empty result")
 	c.Assume("Compose features are at least abutting the sequence (a feature entirely outside is out of scope)", "Trim: an empty window is accepted anywhere; values are dyadic so sums are exact")
 	maxL, maxF, maxT := 5, 2, 6
 	if !c.Quick {
@@ -584,6 +584,32 @@ func run(c *enum.Ctx) {
 					kase{Kind: "compose", Q: q, L: 15, Off: 20, Feats: co},
 					kase{Kind: "compose", Q: q, Prot: true, L: 15, Off: 20, Same: true, Feats: co})
 			}
+		}
+	}
+	// long segments: sequences of ladder length with a handful of features that are long themselves (a
+	// quarter, a half of the sequence, overlapping, in both orientations, a later one no longer than an earlier)
+	for _, n := range enum.Ladder(16, 2050) {
+		fs := []fdef{{0, n / 2, 1}, {n / 4, 3 * n / 4, -1}, {n / 2, n, 1}, {1, n / 2, -1}, {n/2 - 1, n - 1, 0}, {n / 3, n/3 + 2, 2}}
+		for _, q := range []bool{false, true} {
+			ladder = append(ladder,
+				kase{Kind: "stitch", Q: q, L: n, Off: 3, Feats: fs[:4]},
+				kase{Kind: "compose", Q: q, L: n, Off: 3, Feats: fs},
+				kase{Kind: "compose", Q: q, L: n, Off: -2, Feats: fs[1:5]},
+				kase{Kind: "truncate", Q: q, L: n, Off: 3, Start: 3 + n/4, End: 3 + n - 1},
+				kase{Kind: "truncate", Q: q, L: n, Off: 3, Circ: true, Start: 3 + n - 2, End: 3 + n/2})
+		}
+	}
+	// coordinates far from the origin: the sequence sits at +-2^40 and just around +-2^31
+	for _, off := range []int{1 << 40, -(1 << 40), 1<<31 - 3, -(1 << 31) - 2, 1 << 31} {
+		fs := []fdef{{off + 1, off + 3, 1}, {off + 2, off + 5, -1}, {off - 1, off + 2, 1}, {off + 4, off + 9, 2}}
+		for _, q := range []bool{false, true} {
+			ladder = append(ladder,
+				kase{Kind: "stitch", Q: q, L: 6, Off: off, Feats: fs},
+				kase{Kind: "stitch", Q: q, L: 6, Off: off, Feats: fs[1:3]},
+				kase{Kind: "compose", Q: q, L: 6, Off: off, Feats: fs},
+				kase{Kind: "truncate", Q: q, L: 6, Off: off, Start: off + 1, End: off + 5},
+				kase{Kind: "truncate", Q: q, L: 6, Off: off, Circ: true, Start: off + 4, End: off + 2},
+				kase{Kind: "truncate", Q: q, L: 6, Off: off, Start: off - 1, End: off + 2})
 		}
 	}
 	enum.Parallel(len(ladder), func(i int) {
